@@ -1,54 +1,59 @@
 """C17 crash runner: one process per request, started with sys.executable by vlib.c17_prog.CrashServer (PYTHONPATH
-inherited; the client starts the next process while the current one works, so the import time is hidden).
+inherited; the client starts the next processes while the current one works, so the import time is hidden).
 
 Prints "ready", then reads ONE JSON request on stdin:
-    {"program": ..., "template": template database, "dir": scratch directory, "ks": [k, ...]}
-For every k the process copies the template to <dir>/crash_<k>.sqlite, binds a fresh Pony Database to it through the
-fault layer and runs the program in a thread of its own whose plan is "stop for ever right before call k" (no unwinding:
-none of Pony's cleanup code runs, the connection stays exactly as it was, with its transaction open).  When every run
-is frozen at its call the process writes <dir>/status.json and kills itself with os._exit(137): every one of those
-connections dies with the process, mid-transaction, the way a crashed program leaves them.  The runs use separate
-Database objects and separate files, so they do not influence each other.
+    {"jobs": [{"program": ..., "ks": [k, ...]}, ...], "template": template database, "dir": scratch directory}
+For every job j and every k the process copies the template to <dir>/crash_<j>_<k>.sqlite, binds a fresh Pony Database
+to it through the fault layer and runs the program with the plan "freeze right before call k": at that call the run is
+abandoned, and from then on no DB-API call of that run reaches SQLite any more (the layer raises instead), so none of
+Pony's cleanup code (rollback, close) touches the connection; the connection object is kept exactly as it was, with its
+transaction open.  When every run has been abandoned at its call the process writes <dir>/status.json and kills itself
+with os._exit(137): every one of those connections dies with the process, mid-transaction, the way a crashed program
+leaves them.  The runs use separate Database objects and separate files, so they do not influence each other.
 """
-import os, sys, json, shutil, threading
+import os, sys, json
 
 HOME = os.environ.get('VERIF_HOME') or os.path.dirname(os.path.dirname(os.path.abspath(__file__)))
 if HOME not in sys.path:
     sys.path.insert(0, HOME)
 
-
-def crash_path(d, k):
-    return os.path.join(d, 'crash_%d.sqlite' % k)
+KEEP = []      # connection objects of abandoned runs: they must stay open and untouched until the process dies
 
 
-def one_run(req, k, status):
-    from vlib import c17_prog
-    path = crash_path(req['dir'], k)
-    progress = threading.Event()
+def crash_path(d, j, k):
+    return os.path.join(d, 'crash_%d_%d.sqlite' % (j, k))
 
-    def target():
-        try:
-            env = c17_prog.Env(req['template'], path, [{'at': k, 'when': 'before', 'exc': 'park'}], parked=progress)
-            c17_prog.Interp(env, req['program']).run()
-            status[str(k)] = 'finished'          # never reached call k
-        except BaseException as e:
-            status[str(k)] = 'raised %s: %s' % (type(e).__name__, str(e)[:200])
-        finally:
-            progress.set()
-    status[str(k)] = 'parked'
-    t = threading.Thread(target=target, name='crash-%d' % k)
-    t.daemon = True
-    t.start()
-    progress.wait()       # set when the run is frozen at call k (or, unexpectedly, when it ended)
+
+def one_run(req, j, program, k, status):
+    from vlib import c17_prog, faultdb
+    from pony.orm import core
+    key = '%d:%d' % (j, k)
+    env = c17_prog.Env(req['template'], crash_path(req['dir'], j, k), [{'at': k, 'when': 'before', 'exc': 'freeze'}])
+    try:
+        c17_prog.Interp(env, program).run()
+        # a Frozen signal can be swallowed by Pony (rollback failure while another exception propagates)
+        status[key] = 'frozen' if env.rec.dead else 'finished'
+    except faultdb.Frozen:
+        status[key] = 'frozen' if env.rec.dead else 'finished'
+    except BaseException as e:
+        status[key] = ('frozen' if env.rec.dead else 'raised') + ' %s: %s' % (type(e).__name__, str(e)[:200])
+        if env.rec.dead:
+            status[key] = 'frozen'            # Pony wrapped the Frozen signal into one of its own exceptions
+    KEEP.extend(r.obj for r in env.rec.conns)     # everything else of the run may be garbage collected
+    # Pony's thread-local session state of the abandoned run (no database call can happen: the recorder is dead)
+    try:
+        core.local.db2cache.clear()
+        core.local.db_session = None
+        core.local.db_context_counter = 0
+    except BaseException:
+        pass
 
 
 def child(req):
-    import gc
-    gc.disable()      # frozen runs keep all their objects alive; collecting over them again and again is wasted time
-    threading.stack_size(512 * 1024)
     status = {}
-    for k in req['ks']:
-        one_run(req, k, status)
+    for j, job in enumerate(req['jobs']):
+        for k in job['ks']:
+            one_run(req, j, job['program'], k, status)
     tmp = os.path.join(req['dir'], 'status.json.tmp')
     with open(tmp, 'w') as f:
         json.dump(status, f)
@@ -67,7 +72,11 @@ def main():
     line = sys.stdin.readline()
     if not line.strip():
         os._exit(0)                     # the client did not need this process
-    child(json.loads(line))
+    sys.stdout = open(os.devnull, 'w')  # nobody reads the pipe any more (a session with sql_debug=True prints)
+    try:
+        child(json.loads(line))
+    finally:
+        os._exit(5)
 
 
 if __name__ == '__main__':
